@@ -208,7 +208,7 @@ macro_rules! step_harness {
 
 //@ob fn="connect" at=src/lib.rs:675 also=rel_check clause="n=2, arbitrary matching, i!=j not linked to each other: no panic, no borrow leaked, afterwards other(i)==j, other(j)==i, former partners unlinked, all other links unchanged, links form a symmetric matching (inductive invariant => every operation sequence), all slots bit-unchanged" instance="n=2 terminals"
 step_harness!(c09_connect_step_n2, 4, Op::ConnectNotPaired, [a, b]);
-//@ob prop=C09,C08,C13,C20 fn="connect" at=src/lib.rs:675 also=rel_check clause="n=3, arbitrary matching, i!=j not linked to each other: no panic, no borrow leaked, afterwards other(i)==j, other(j)==i, former partners unlinked, all other links unchanged, links form a symmetric matching (inductive invariant => every operation sequence), all slots bit-unchanged" instance="n=3 terminals"
+//@ob prop=C09,C08,C13,C20 fn="connect" at=src/lib.rs:675 also_thorough=rel_check clause="n=3, arbitrary matching, i!=j not linked to each other: no panic, no borrow leaked, afterwards other(i)==j, other(j)==i, former partners unlinked, all other links unchanged, links form a symmetric matching (inductive invariant => every operation sequence), all slots bit-unchanged" instance="n=3 terminals"
 step_harness!(c09_connect_step_n3, 5, Op::ConnectNotPaired, [a, b, c]);
 //@ob fn="connect" at=src/lib.rs:675 clause="n=4 (covers every aliasing pattern of a, b, a.other, b.other), arbitrary matching, i!=j not linked to each other: no panic, no borrow leaked, afterwards other(i)==j, other(j)==i, former partners unlinked, all other links unchanged, links form a symmetric matching (inductive invariant => every operation sequence), all slots bit-unchanged" instance="n=4 terminals"
 step_harness!(c09_connect_step_n4, 6, Op::ConnectNotPaired, [a, b, c, d]);
@@ -219,14 +219,14 @@ step_harness!(c09_connect_step_n6, 8, Op::ConnectNotPaired, [a, b, c, d, e, f]);
 
 //@ob fn="connect" at=src/lib.rs:675 clause="n=4, arbitrary matching in which i and j are ALREADY linked to each other: connect(i,j) does not panic, leaves them linked to each other, everything else unchanged, slots bit-unchanged ('first unlinks whatever either was linked to (including each other) and never panics')" instance="n=4 terminals"
 step_harness!(c09_connect_already_connected_pair_no_panic, 6, Op::ConnectPaired, [a, b, c, d]);
-//@ob fn="connect" at=src/lib.rs:675 also=rel_check clause="as c09_connect_already_connected_pair_no_panic with n=2 (the two-terminal history connect(a,b); connect(a,b))" instance="n=2 terminals"
+//@ob fn="connect" at=src/lib.rs:675 also_thorough=rel_check clause="as c09_connect_already_connected_pair_no_panic with n=2 (the two-terminal history connect(a,b); connect(a,b))" instance="n=2 terminals"
 step_harness!(c09_connect_already_connected_pair_no_panic_n2, 4, Op::ConnectPaired, [a, b]);
 //@ob fn="connect" at=src/lib.rs:675 clause="as c09_connect_already_connected_pair_no_panic with n=6" instance="n=6 terminals" tier=thorough
 step_harness!(c09_connect_already_connected_pair_no_panic_n6, 8, Op::ConnectPaired, [a, b, c, d, e, f]);
 
 //@ob fn="Terminal::disconnect" at=src/lib.rs:527 also=rel_check clause="n=2, arbitrary matching, any i: no panic, no borrow leaked, i and its former partner unlinked, all other links unchanged, symmetric matching preserved, all slots bit-unchanged" instance="n=2 terminals"
 step_harness!(c09_disconnect_step_n2, 4, Op::Disconnect, [a, b]);
-//@ob prop=C09,C08,C13,C20 fn="Terminal::disconnect" at=src/lib.rs:527 also=rel_check clause="n=3, arbitrary matching, any i: no panic, no borrow leaked, i and its former partner unlinked, all other links unchanged, symmetric matching preserved, all slots bit-unchanged" instance="n=3 terminals"
+//@ob prop=C09,C08,C13,C20 fn="Terminal::disconnect" at=src/lib.rs:527 also_thorough=rel_check clause="n=3, arbitrary matching, any i: no panic, no borrow leaked, i and its former partner unlinked, all other links unchanged, symmetric matching preserved, all slots bit-unchanged" instance="n=3 terminals"
 step_harness!(c09_disconnect_step_n3, 5, Op::Disconnect, [a, b, c]);
 //@ob fn="Terminal::disconnect" at=src/lib.rs:527 clause="n=4, arbitrary matching, any i: no panic, no borrow leaked, i and its former partner unlinked, all other links unchanged, symmetric matching preserved, all slots bit-unchanged" instance="n=4 terminals"
 step_harness!(c09_disconnect_step_n4, 6, Op::Disconnect, [a, b, c, d]);
@@ -323,21 +323,21 @@ fn state_read_case(own_present: bool, partner_present: bool) {
     reach!();
 }
 
-//@ob fn="<Terminal<'_,E> as Getter<State,E>>::get" at=src/lib.rs:565 prop=C09,C16 also=rel_check clause="own state absent, partner absent or terminal unlinked: Ok(None); no scratch slot read; terminal and partner bit-unchanged, no borrow leaked"
+//@ob fn="<Terminal<'_,E> as Getter<State,E>>::get" at=src/lib.rs:565 prop=C09,C16 also_thorough=rel_check clause="own state absent, partner absent or terminal unlinked: Ok(None); no scratch slot read; terminal and partner bit-unchanged, no borrow leaked"
 #[kani::proof]
 #[kani::stub(<State as Div<f32>>::div, stub_state_div_f32)]
 #[kani::stub(<State as Add>::add, stub_state_add)]
 fn c09_state_read_neither() {
     state_read_case(false, false);
 }
-//@ob fn="<Terminal<'_,E> as Getter<State,E>>::get" at=src/lib.rs:565 prop=C09,C16,C08 also=rel_check clause="own state present, partner's absent (or unlinked): exactly the own datum (time and value bits), independent of the unwritten second scratch slot; pure"
+//@ob fn="<Terminal<'_,E> as Getter<State,E>>::get" at=src/lib.rs:565 prop=C09,C16,C08 also_thorough=rel_check clause="own state present, partner's absent (or unlinked): exactly the own datum (time and value bits), independent of the unwritten second scratch slot; pure"
 #[kani::proof]
 #[kani::stub(<State as Div<f32>>::div, stub_state_div_f32)]
 #[kani::stub(<State as Add>::add, stub_state_add)]
 fn c09_state_read_own_only() {
     state_read_case(true, false);
 }
-//@ob fn="<Terminal<'_,E> as Getter<State,E>>::get" at=src/lib.rs:565 prop=C09,C16,C08 also=rel_check clause="own state absent, linked partner's present: exactly the partner's datum (written to scratch slot 0, the only one read); pure"
+//@ob fn="<Terminal<'_,E> as Getter<State,E>>::get" at=src/lib.rs:565 prop=C09,C16,C08 also_thorough=rel_check clause="own state absent, linked partner's present: exactly the partner's datum (written to scratch slot 0, the only one read); pure"
 #[kani::proof]
 #[kani::stub(<State as Div<f32>>::div, stub_state_div_f32)]
 #[kani::stub(<State as Add>::add, stub_state_add)]
@@ -403,7 +403,7 @@ fn c09_connected_terminals_read_same_state() {
     reach!();
 }
 
-//@ob fn="<Terminal<'_,E> as Getter<Command,E>>::get" at=src/lib.rs:602 prop=C09,C03,C13,C20 also=rel_check clause="command read, arbitrary slots, linked or not: Ok always; None iff neither own nor (linked) partner command exists; otherwise bit-identical to one of the candidates, no candidate is strictly newer, own wins ties (partner only when strictly newer); pure, no borrow leaked"
+//@ob fn="<Terminal<'_,E> as Getter<Command,E>>::get" at=src/lib.rs:602 prop=C09,C03,C13,C20 also_thorough=rel_check clause="command read, arbitrary slots, linked or not: Ok always; None iff neither own nor (linked) partner command exists; otherwise bit-identical to one of the candidates, no candidate is strictly newer, own wins ties (partner only when strictly newer); pure, no borrow leaked"
 #[kani::proof]
 fn c09_command_read_newer_own_wins_ties() {
     let a = fresh();
